@@ -788,6 +788,10 @@ class Peer:
 
         # CONNECTION FAILURE
         except NetworkError as network:
+            # reset first: stop() puts the FSM in IDLE, and _close() only tells the API "down"
+            # for a session which is not in IDLE already (the Notify branch below has this order)
+            self._reset('closing connection', network)
+
             # Check if maximum connection attempts reached
             if not self.can_reconnect():
                 log.debug(
@@ -795,8 +799,6 @@ class Peer:
                     self.id(),
                 )
                 self.stop()
-
-            self._reset('closing connection', network)
             return
 
         # NOTIFY THE PEER OF AN ERROR
@@ -821,6 +823,11 @@ class Peer:
 
         # THE PEER NOTIFIED US OF AN ERROR
         except Notification as notification:
+            self._reset(
+                f'notification received ({notification.code},{notification.subcode})',
+                notification,
+            )
+
             # Check if maximum connection attempts reached
             if not self.can_reconnect():
                 log.debug(
@@ -828,11 +835,6 @@ class Peer:
                     self.id(),
                 )
                 self.stop()
-
-            self._reset(
-                f'notification received ({notification.code},{notification.subcode})',
-                notification,
-            )
             return
 
         # PROBLEM WRITING TO OUR FORKED PROCESSES
